@@ -129,6 +129,10 @@ def run(res, tier):
         res.rule("NRM-1", "shift / normalisation shape functions: the final normalisation step is the last link of a carry chain - no middle or final step receives the same carry afterwards on a feasible path")
         nn = nrm1(p, res)
         res.floor("NRM-1", "shape functions with a final normalisation step", nn, 6)
+        from .c11 import nrm2
+        res.rule("NRM-2", "right shifts: the number of carry-chain steps equals size(operand) + steps for every operand size, result size and shift (piecewise-linear identity over the loop trip counts)")
+        nn2 = nrm2(p, res)
+        res.floor("NRM-2", "right-shift shape functions", nn2, 3)
         from .c11 import col2
         res.rule("COL-2", "core noise-free operations read an operand at the loop's column index only below the operand's own rank + 1 (bound equal, min-dominated, branch-resolved max, or ranks asserted equal)")
         nc2 = col2(p, res)
